@@ -1,5 +1,9 @@
 (* prelude: n nat *)
 (* C03 driver.  A case line (integers):
+     <cmd> <early_delete_index> <instant_delete>      command whose REGENERATED phase order the log is
+                                                     segmented along (0 backup 1 copy 2 merge 3 rewrite_trees
+                                                     4 rewrite_meta 5 repair_snapshots 6 repair_index 7 forget
+                                                     8 prune 9 config 10 key_add 11 key_delete)
      <npacks> { pid nb {t id}* }*
      <nidx>   { iid ne { pack marked nb {t id}* }* }*
      <nsnaps> { sid nn {t id}* }*
@@ -8,7 +12,10 @@
               | 0 2 id nn {t id}*            write snapshot
               | 0 3 id                       write key/config
               | 1 ft id }*                   remove (ft: 0 pack 1 index 2 snapshot 3 other)
-   Output: `disc=<b> bad=<k|-1> P0 sid:c:l,.. P1 .. ... Pn ..` where after every prefix k and
+   Output: `disc=<b> bad=<k|-1> inv0=<b> conf=<b> fam=<1|2|3> order_ok=<b> hyps=<b> frags=<n1/n2/..>
+   P0 sid:c:l,.. P1 .. ... Pn ..`: conf = the log is a concatenation of fragments along the phase order
+   (extracted `segment`), order_ok = the order is a safe one (extracted order_ok1/2/other), hyps = the
+   end-state hypotheses of command_order_in_discipline_<cmd> hold (extracted checks); and after every prefix k and
    for every present snapshot: c = closed (extracted closedb), l = it existed in the start
    state and every blob of it readable there is still readable (extracted avail). *)
 let bt_of = function 0 -> Data | _ -> Tree
@@ -34,8 +41,18 @@ let snap_report s0 s =
       let l = old && List.for_all (fun b -> (not (avail s0 b)) || avail s b) n in
       Printf.sprintf "%d:%d:%d" (int_of_n id) (if c then 1 else 0) (if l then 1 else 0)) s.snaps)
 
+let order_of cmd early instant =
+  match cmd with
+  | 0 -> (1, order_backup) | 1 -> (1, order_copy) | 2 -> (1, order_merge)
+  | 3 -> (1, order_rewrite_trees) | 4 -> (1, order_rewrite_meta) | 5 -> (1, order_repair_snapshots)
+  | 6 -> (2, order_repair_index) | 7 -> (1, order_forget) | 8 -> (2, order_prune early instant)
+  | 9 -> (3, order_config) | 10 -> (3, order_key_add) | _ -> (3, order_key_delete)
+
 let run line =
   let t = toks line in
+  let cmd = ni t in
+  let early = ni t <> 0 in
+  let instant = ni t <> 0 in
   let np = ni t in
   let packs = ntimes np (fun () -> let id = n_of_int (ni t) in (id, rd_blobs t)) in
   let nx = ni t in
@@ -49,6 +66,19 @@ let run line =
   let bad = match first_bad s0 ops O with None -> -1 | Some k -> int_of_nat k in
   let buf = Buffer.create 256 in
   Buffer.add_string buf (Printf.sprintf "disc=%b bad=%d inv0=%b" disc bad (invb s0));
+  let (fam, ps) = order_of cmd early instant in
+  let ook = (match fam with 1 -> order_ok1 ps | 2 -> order_ok2 ps | _ -> order_ok_other ps) in
+  (match segment ps ops with
+   | None -> Buffer.add_string buf (Printf.sprintf " conf=false fam=%d order_ok=%b hyps=false frags=-" fam ook)
+   | Some frags ->
+     let log = List.concat frags in
+     let hyps = (match fam with
+         | 1 -> freshb s0 log && written_snaps_closed s0 log
+         | 2 -> freshb s0 log && unindexed_unlisted s0 (unindexed_frag ps frags) && needed_kept s0 log
+                && removed_packs_unlisted s0 log
+         | _ -> true) in
+     Buffer.add_string buf (Printf.sprintf " conf=true fam=%d order_ok=%b hyps=%b frags=%s" fam ook hyps
+                              (String.concat "/" (List.map (fun f -> string_of_int (List.length f)) frags))));
   let s = ref s0 in
   Buffer.add_string buf (" P0 " ^ snap_report s0 !s);
   List.iteri (fun k o -> s := apply_op !s o;
